@@ -38,12 +38,14 @@ Definition tr_mhop (h : m2m_hop) : m_hop :=
 Definition tr_fop (op : fd_op) : f_op :=
   match op with
   | FSetitem _ _ | FDelitem _ | FUpdate _ | FIor _ | FSetdefault _ _ | FPop _ _ | FPopitem | FClear => SFMutator
-  | FHash => SFHash | FGet k => SFGet k | FUpdated kvs => SFUpdated kvs | FCopy => SFCopy | FPickle => SFPickle
+  | FHash => SFHash | FGet k => SFGet k | FUpdated kvs => SFUpdated kvs | FCopy => SFCopy | FClone _ => SFPickle
   end.
+Definition tr_hout (h : hout) : f_res :=
+  match h with HOk z => FOkHash z | HRaise => FRaise FrozenHashErr | HNA => FOkNone end.
 Definition tr_fres (r : res fval) : f_res :=
   match r with
   | Ok FNone => FOkNone | Ok (FTok n) => FOkTok n | Ok (FHashV h) => FOkHash h
-  | Ok (FNew items s e) => FOkNew items s e | Raise e => FRaise e
+  | Ok (FNew items s e h) => FOkNew items s e (tr_hout h) | Raise e => FRaise e
   end.
 
 (* ---- exact comparison of observations -------------------------------------- *)
@@ -52,7 +54,13 @@ Definition fval_eqb (a b : fval) : bool :=
   | FNone, FNone => true
   | FTok x, FTok y => Nat.eqb x y
   | FHashV x, FHashV y => Z.eqb x y
-  | FNew i s e, FNew i' s' e' => list_eqb kv_eqb i i' && Bool.eqb s s' && Bool.eqb e e'
+  | FNew i s e h, FNew i' s' e' h' =>
+      list_eqb kv_eqb i i' && Bool.eqb s s' && Bool.eqb e e' &&
+      match h, h' with
+      | HOk x, HOk y => Z.eqb x y
+      | HRaise, HRaise | HNA, HNA => true
+      | _, _ => false
+      end
   | _, _ => false
   end.
 
@@ -90,6 +98,16 @@ Fixpoint m2m_walk (h : list m2m) (prev : list mview) (steps : list (m2m_hop * m2
 Definition ih_lookup (ihs : list (kv * Z)) (p : kv) : Z :=
   match find (fun e => kv_eqb p (fst e)) ihs with Some e => snd e | None => 0%Z end.
 
+(* hash outcomes a step contributes to the "must all be the same" list: hash(fd)
+   itself, and hash(r) of a returned object r that compares equal to fd *)
+Definition hs_of_step (op : fd_op) (r : res fval) : list f_res :=
+  match op, r with
+  | FHash, _ => [tr_fres r]
+  | _, Ok (FNew _ _ true (HOk z)) => [FOkHash z]
+  | _, Ok (FNew _ _ true HRaise) => [FRaise FrozenHashErr]
+  | _, _ => []
+  end.
+
 Fixpoint fd_walk (ih : kv -> Z) (f : fdict) (prev : dict) (steps : list (fd_op * fd_obs))
   : bool * bool * list f_res * fdict :=
   match steps with
@@ -99,7 +117,7 @@ Fixpoint fd_walk (ih : kv -> Z) (f : fdict) (prev : dict) (steps : list (fd_op *
       let a := res_eqb fval_eqb mr r && list_eqb kv_eqb (f_items f') items in
       let ok := f_op_ok prev (tr_fop op) (tr_fres r) items in
       let '(a', ok', hs, fl) := fd_walk ih f' items rest in
-      (a && a', ok && ok', match op with FHash => tr_fres r :: hs | _ => hs end, fl)
+      (a && a', ok && ok', hs_of_step op r ++ hs, fl)
   end.
 
 Definition last_hash (hs : list f_res) : f_res := last hs FOkNone.
